@@ -2,7 +2,10 @@ import Mp4ff.Model.Boxes
 /-!
 M6 (file level): how `DecodeFile` groups the top-level boxes of a fragmented file into media segments and fragments —
 mp4/file.go `AddChild` (styp / emsg / moof / mdat / sidx cases) and `startSegmentIfNeeded` (sidx references, tfra
-offsets with the ISM flag, the start-on-moof flag, default) — and the arithmetic of `fillSidx`.
+offsets with the ISM flag, the start-on-moof flag, default) — the arithmetic of `fillSidx`, and what `UpdateSidx`
+computes from the segments (`MediaSegment.Size`, `Fragment.Size`, `MediaSegment.FirstBox`, `insertSidx`) after the
+file was modified through `Fragment.AddEmsg` / `Fragment.AddChild` / `MediaSegment.AddFragment` /
+`File.AddMediaSegment`.
 -/
 namespace Mp4ff.Segments
 open Mp4ff.Boxes
@@ -41,6 +44,7 @@ structure Seg where
   startPos : Nat
   hasStyp : Bool := false
   frags : List Frag := []
+  stypSize : Nat := 0            -- size of the styp box that opened it (`MediaSegment.Styp`)
 deriving Repr, DecidableEq
 
 /-- one top-level sidx as `startSegmentIfNeeded` sees it: anchor point and (reference_type, referenced_size) list -/
@@ -100,7 +104,7 @@ def updLastFrag (s : Seg) (f : Frag → Frag) : Seg :=
 /-- `File.AddChild` for the boxes of a fragmented file (`none` = the Go code dereferences a nil segment/fragment) -/
 def addChild (st : St) (it : Item) (sidxOf : Item → Option Sidx) : Option St :=
   match it.kind with
-  | .styp => some { st with segs := st.segs ++ [{ startPos := it.pos, hasStyp := true }] }
+  | .styp => some { st with segs := st.segs ++ [{ startPos := it.pos, hasStyp := true, stypSize := it.size }] }
   | .sidx =>
     if st.segs = [] then
       match sidxOf it with
@@ -141,5 +145,100 @@ def groupItems (st : St) (sidxOf : Item → Option Sidx) : List Item → Option 
 
 /-- `fillSidx` + `insertSidx`: byte offset (from the anchor point) at which reference `i` starts -/
 def refStart (sizes : List Nat) (i : Nat) : Nat := (sizes.take i).sum
+
+/-! ### UpdateSidx: referenced sizes and the place of a new index -/
+
+/-- `Fragment.Size()`: the boxes in `Children` -/
+def Frag.size (f : Frag) : Nat := (f.children.map (·.size)).sum
+
+/-- `MediaSegment.Size()`: styp + fragments (segment-level sidx boxes are not in the model) -/
+def Seg.size (s : Seg) : Nat := s.stypSize + (s.frags.map Frag.size).sum
+
+/-- `MediaSegment.FirstBox()`: the styp, else the first child of the first fragment -/
+def Seg.firstBox (s : Seg) : Option Item :=
+  if s.hasStyp then some ⟨.styp, s.startPos, s.stypSize⟩
+  else match s.frags with
+    | f :: _ => f.children.head?
+    | [] => none
+
+/-- `insertSidx`: index, in the list of top-level boxes (`File.Children`), in front of which the new sidx goes. The
+    first box of the first segment is looked up by identity (a box is identified by kind, position, size; boxes added
+    through the API carry positions beyond the end of the file); not found, or found at index 0: error return. -/
+def insertIdx (items : List Item) (st : St) : Option Nat :=
+  match st.segs with
+  | [] => none
+  | s :: _ =>
+    match s.firstBox with
+    | none => none
+    | some b =>
+      match items.findIdx? (· == b) with
+      | some (i + 1) => some (i + 1)
+      | _ => none
+
+structure IndexOut where
+  sizes : List Nat                -- referenced_size of every reference (`fillSidx`)
+  firstOffset : Nat
+  insertAt : Option Nat           -- `none`: the index existed and is refilled in place
+deriving Repr, DecidableEq
+
+inductive UpdOut where
+  | error | nothing | index (o : IndexOut)
+deriving Repr, DecidableEq
+
+/-- `File.UpdateSidx` without the timing fields. `otherSidx`: written sizes of the top-level sidx boxes behind the
+    first one (they stay between the index and the media). -/
+def updateSidx (items : List Item) (st : St) (add : Bool) (otherSidx : List Nat) : UpdOut :=
+  if st.segs = [] then .error
+  else if st.sidxs ≠ [] then .index ⟨st.segs.map Seg.size, otherSidx.sum, none⟩
+  else if !add then .nothing
+  else match insertIdx items st with
+    | none => .error
+    | some i => .index ⟨st.segs.map Seg.size, 0, some i⟩
+
+/-! ### modifications through the public API between decoding and UpdateSidx -/
+
+def modifyAt {α} (l : List α) (i : Nat) (f : α → α) : List α :=
+  match l, i with
+  | [], _ => []
+  | x :: xs, 0 => f x :: xs
+  | x :: xs, i + 1 => x :: modifyAt xs i f
+
+/-- `Fragment.AddEmsg`: behind the run of emsg boxes the fragment starts with -/
+def Frag.addEmsg (f : Frag) (it : Item) : Frag :=
+  let lead := f.children.takeWhile (·.kind == .emsg)
+  { f with children := lead ++ it :: f.children.drop lead.length }
+
+/-- `Fragment.AddChild`: appended -/
+def Frag.addBox (f : Frag) (it : Item) : Frag :=
+  { f with children := f.children ++ [it], moof := if it.kind == .moof then some it.pos else f.moof }
+
+inductive ApiOp where
+  | addEmsg (seg frag : Nat) (sizes : List Nat)          -- `Fragment.AddEmsg`, once per size
+  | addChild (seg frag : Nat) (kind : Kind) (size : Nat) -- `Fragment.AddChild`
+  | addFragment (seg : Nat) (boxes : List (Kind × Nat))  -- `MediaSegment.AddFragment` of a fragment built with AddChild
+  | addSegment (styp : Option Nat)                       -- `File.AddMediaSegment` (with a styp of that size, or none)
+  | setStyp (seg : Nat) (size : Nat)                     -- the segment's `Styp` field is set
+deriving Repr
+
+/-- boxes made by the caller get positions from `base` on (no box of the file sits there) -/
+def applyOp (base : Nat) (st : St) : ApiOp → St
+  | .addEmsg si fi sizes =>
+    { st with segs := modifyAt st.segs si fun s => { s with frags := modifyAt s.frags fi fun f =>
+        (sizes.zipIdx.foldl (fun f (z, j) => f.addEmsg ⟨.emsg, base + j, z⟩) f) } }
+  | .addChild si fi k z =>
+    { st with segs := modifyAt st.segs si fun s => { s with frags := modifyAt s.frags fi (·.addBox ⟨k, base, z⟩) } }
+  | .addFragment si boxes =>
+    let fr := boxes.zipIdx.foldl (fun (f : Frag) (kz, j) => f.addBox ⟨kz.1, base + j, kz.2⟩) { startPos := base }
+    { st with segs := modifyAt st.segs si fun s => { s with frags := s.frags ++ [fr] } }
+  | .addSegment styp =>
+    { st with segs := st.segs ++ [match styp with
+        | some z => { startPos := base, hasStyp := true, stypSize := z }
+        | none => { startPos := base }] }
+  | .setStyp si z =>
+    { st with segs := modifyAt st.segs si fun s => if s.hasStyp then s else { s with hasStyp := true, stypSize := z } }
+
+def applyOps (base : Nat) (st : St) : List ApiOp → St
+  | [] => st
+  | op :: rest => applyOps (base + 1000) (applyOp base st op) rest
 
 end Mp4ff.Segments
